@@ -269,6 +269,9 @@ var c14Planted = [][3]string{
 	{"preprocess-returns-concrete-error-type", ":preprocess h2ce", "(*HA) (*HB, error)"}, {"postprocess-returns-concrete-error-type", ":postprocess h2ce", "(*HA) (*HB, error)"},
 	{"conv-second-result-concrete-error-type", ":conv f1ce X", "(*HA) (*HB, error)"},
 	{"preprocess-second-param-mismatch", ":preprocess h2s", ""}, {"postprocess-additional-param-type-mismatch", ":postprocess h3s2", "(a *HA, n int) *HB"},
+	{"method-second-result-not-error", "", "(*HA) (*HB, int)"}, {"method-three-results", "", "(*HA) (*HB, int, error)"}, {"method-second-result-concrete-error-type", "", "(*HA) (*HB, *hzErr)"},
+	{"conv-package-imported-only-further-down", ":conv audit.Encode X", ""}, {"postprocess-package-imported-only-further-down", ":postprocess audit.Finish", ""},
+	{"conv-name-with-three-dots", ":conv ext.IntToStr.Nope.Really X", ""}, {"preprocess-name-with-two-dots", ":preprocess ext.IntToStr.Nope", ""},
 	{"method-no-params", "", "() *HB"}, {"method-no-results", "", "(*HA)"}, {"method-non-struct-src", "", "(int) *HB"}, {"method-non-struct-dst", "", "(*HA) int"},
 	{"method-pointer-pointer-src", "", "(**HA) *HB"}, {"method-pointer-pointer-dst", "", "(*HA) **HB"}, {"method-interface-src", "", "(interface{}) *HB"},
 	{"method-undefined-src", "", "(*Nope) *HB"}, {"method-undefined-dst", "", "(*HA) *Nope"}, {"method-slice-operands", "", "([]HA) []HB"}, {"method-error-operands", "", "(error) error"},
@@ -282,7 +285,7 @@ const c14Head = "//go:build convergen\n\npackage home\n\nimport (\n\t_ \"example
 
 func TestC14(t *testing.T) {
 	env, rec := start(t, "C14", "exploration",
-		"(a) table of planted single malformations (61 notation/method errors) each embedded in rapid-drawn otherwise valid context (position in the method list, neighbouring valid notations): must be rejected with a first diagnostic that starts with file:line of the planted item; "+
+		"(a) table of planted single malformations (68 notation/method errors) each embedded in rapid-drawn otherwise valid context (position in the method list, neighbouring valid notations): must be rejected with a first diagnostic that starts with file:line of the planted item; "+
 			"(b) rapid grammar of hostile setups: 0-6 notation lines per method/interface built from every notation name (known, unknown, misplaced) with 0-4 arguments drawn from valid tokens and hostile constants (empty, '.', '$0', '$99999999999999999999', '/(/', '/\\pL/', unbalanced quotes, NUL, invalid UTF-8, 300-char tokens, deep paths), "+
 			"functions from a zoo of 37 signatures (0-4 params, 0-3 results, variadic, generic, vars, types, imported unexported, builtins), 36 method signatures (no params/results, non-struct, **T, interface, error, unresolved, variadic, named like dst/src/err), error- and interface-typed fields; also Go files without converter interface and with syntax errors. "+
 			"Oracle: terminates (60 s limit, re-tried 3x), no panic/fatal error/signal, exit 0 or non-zero with a message, exit 0 implies one generated function per method. Non-trivial: input with a planted malformation or at least one hostile token; distinct by hash of the setup text.")
@@ -317,7 +320,7 @@ func TestC14(t *testing.T) {
 	validNotes := []string{":typecast", ":stringer", ":getter", ":case:off", ":skip S", ":map X X", ":conv f1 X", ":literal S \"x\"", ":postprocess h2", ":style return"}
 
 	// (a) planted malformations in varying context
-	rapidRun(t, env, "planted", env.Pick(61*12, 61*200), func(rt *rapid.T) {
+	rapidRun(t, env, "planted", env.Pick(len(c14Planted)*12, len(c14Planted)*200), func(rt *rapid.T) {
 		pl := rapid.SampledFrom(c14Planted).Draw(rt, "planted")
 		var sb strings.Builder
 		sb.WriteString(c14Head)
